@@ -53,6 +53,16 @@ def router_check(pid, tier):
                 v["kind"] = "%s:%s" % (r["kind"], v["kind"])
                 viols.append(v)
 
+    server_part = None
+    if pid == "C01":
+        # "... and to no subscriber of any other topic": the per-topic routers are selected by the
+        # server's topic map; isolation is exercised over loopback QUIC (raw-peer e2e pipeline)
+        import e2e_checks
+        server_part = e2e_checks.server_pipeline(tier)
+        for v in server_part["viol"]:
+            if pid in v["props"]:
+                viols.append(dict(v, router="server", kind="server:" + v["kind"], schedule=None, trace=v.get("context", [])))
+
     def mk(v):
         return write_replay(pid, v["kind"], {
             "property": pid, "router": v["router"], "signature": v["kind"], "line": v["line"],
@@ -76,6 +86,7 @@ def router_check(pid, tier):
         "known_findings_hit": hit,
         "pipeline_reused_from_cache": [r["kind"] for r in results if r.get("cached")],
         "samples": [s for r in results for s in r["samples"]][:4],
+        "isolation_e2e": ({"name_pairs": 6, "events_validated": server_part["events"]} if server_part else None),
         "explanation": "TLC exhaustively checks the implementation-shaped router module(s) against the "
                        "property-level module(s) for the configured bound (states/transitions above), then "
                        "every generated and random schedule is replayed on the real router future and TLC "
